@@ -231,6 +231,11 @@ def r1_other(cx):
                             pers.add(c.b)
             elif ERROR_Q.search(c.q) and c.args and pa.root(f, c.args[0]) == r:
                 pers.add(c.b)  # C11.R1 error-persists
+            elif c.q.endswith("Context::emit_error") and c.args:
+                # `let ctx = r.create_context(); ..; ctx.emit_error()` emits (and so stores) the context's task, which is r
+                cr = pa.root(f, c.args[0])
+                if cr[0] == "call" and cr[1].endswith("Task::create_context") and pa.root(f, Call(f, cr[2]).args[0]) == r:
+                    pers.add(c.b)
         return pers
 
     def ok_exits(f):
